@@ -172,11 +172,15 @@ public:
         fn tmp = apply(*x.get_coef());
         fn tmp1, tmp2;
         for (const auto &p : x.get_dict()) {
-            tmp1 = apply(*(p.first));
             tmp2 = apply(*(p.second));
-            tmp = [=](const T *x) {
-                return tmp(x) * std::pow(tmp1(x), tmp2(x));
-            };
+            if (eq(*(p.first), *E)) {
+                tmp = [=](const T *x) { return tmp(x) * std::exp(tmp2(x)); };
+            } else {
+                tmp1 = apply(*(p.first));
+                tmp = [=](const T *x) {
+                    return tmp(x) * std::pow(tmp1(x), tmp2(x));
+                };
+            }
         }
         result_ = tmp;
     }
